@@ -63,6 +63,25 @@ def precision_programs():
     p["power_const"] = mk(lambda x: x ** 2 * 0.1, [((3,), F32)])
     p["sum_of_squares"] = mk(lambda x: jnp.sum(x * x) * 0.1, [((3,), F32)])
 
+    # constants the converter PRE-COMPUTES at conversion time by evaluating JAX itself (resampling
+    # weights, window functions, tables): the evaluation must happen at the requested precision
+    try:
+        import jax.image as jimage
+
+        for meth in ("linear", "cubic", "area", "cubic-pytorch", "nearest"):
+            tag = meth.replace("-", "_")
+            p[f"precomp/resize_{tag}_3x4_to_2x3"] = mk((lambda meth: (lambda x: jimage.resize(x, (2, 3), method=meth, antialias=False)))(meth), [((3, 4), F32)])
+            p[f"precomp/resize_{tag}_3x4_to_5x7"] = mk((lambda meth: (lambda x: jimage.resize(x, (5, 7), method=meth, antialias=False)))(meth), [((3, 4), F32)])
+    except Exception:
+        pass
+    for wn in ("hamming", "hanning", "blackman", "bartlett", "kaiser"):
+        if hasattr(jnp, wn):
+            p[f"precomp/window_{wn}"] = mk((lambda wn: (lambda x: x * (getattr(jnp, wn)(5) if wn != "kaiser" else jnp.kaiser(5, 3.0))))(wn), [((5,), F32)])
+    p["precomp/linspace_third"] = mk(lambda x: x * jnp.linspace(0.0, 1.0, 4)[1:], [((3,), F32)])
+    p["precomp/arange_scaled"] = mk(lambda x: x + jnp.arange(0.0, 0.9, 0.3), [((3,), F32)])
+    p["precomp/eye_scaled"] = mk(lambda x: x @ (jnp.eye(3) / 3.0), [((3,), F32)])
+    p["precomp/tri_mean"] = mk(lambda x: x @ (jnp.tri(3) / 7.0), [((3,), F32)])
+
     class Lin(nnx.Module):
         def __init__(self):
             self.w = nnx.Param(jnp.asarray([[0.1, 0.2], [0.3, 0.4], [0.5, 0.6]], dtype=jnp.float64))
